@@ -124,7 +124,7 @@ Definition brandes_source (p : graph) (scores : list Q) (source : nat) : list Q 
   snd (fold_left (back_step source (b_sigma st) (b_preds st)) seen (repeat 0%Q n, scores)).
 
 (** [is_symmetric(adjacency)]: A - A^T has no non-zero entry (weights included). *)
-Definition symmetric (g : wgraph) : bool :=
+Definition is_symmetric (g : wgraph) : bool :=
   let n := length g in
   forallb (fun i => forallb (fun j => Qeq_bool (entry (wrow_of g i) j) (entry (wrow_of g j) i)) (seq 0 n)) (seq 0 n).
 
@@ -132,7 +132,7 @@ Definition symmetric (g : wgraph) : bool :=
 Definition betweenness (g : wgraph) : list Q :=
   let p := pattern g in
   let sc := fold_left (brandes_source p) (seq 0 (length p)) (repeat 0%Q (length p)) in
-  if symmetric g then map (fun x => Qred (x / 2)%Q) sc else sc.
+  if is_symmetric g then map (fun x => Qred (x / 2)%Q) sc else sc.
 (** Before the repair: halved unconditionally. *)
 Definition old_betweenness (g : wgraph) : list Q :=
   let p := pattern g in
@@ -167,7 +167,7 @@ Definition betweenness_ordered (p : graph) (v : nat) : Q :=
 (** Textbook: ordered pairs for a directed graph, unordered pairs (half) for an undirected one. *)
 Definition betweenness_spec (g : wgraph) : list Q :=
   let p := pattern g in
-  map (fun v => if symmetric g then Qred (betweenness_ordered p v / 2)%Q else betweenness_ordered p v)
+  map (fun v => if is_symmetric g then Qred (betweenness_ordered p v / 2)%Q else betweenness_ordered p v)
       (seq 0 (length p)).
 
 (** All digraphs on n nodes (for the bounded theorem): every subset of the n*n possible arcs. *)
